@@ -51,7 +51,10 @@ func c11Headers(n int, tier string, rng *Rng) []string {
 	for _, s := range []string{"", "bytes=", "bytes=-", "bytes=--5", "bytes=--", "bytes=1", "bytes= 1 - 2 ", "bytes=1 -2", "bytes=\t1-\t2",
 		" bytes=1-2", "bytes =1-2", "Bytes=1-2", "bytes=1-2,3-4", "bytes=0-0,", "bytes=,", "boats=0-0", "bytes=a-b", "bytes=1-b", "bytes=0x1-2",
 		"bytes=+1-+2", "bytes=-+2", "bytes=1_0-2", "bytes=1-2-3", "bytes=1.0-2", "bytes=1-2 ", "bytes=01-02", "bytes=0-", "bytes=-0", "bytes=-00",
-		"bytes= - 1", "bytes=1 - ", "bytes=\v1-2\f", "bytes=1- 2\r\n", "items=1-2", "bytes", "bytes=1-2;", "bytes=1–2"} {
+		"bytes= - 1", "bytes=1 - ", "bytes=\v1-2\f", "bytes=1- 2\r\n", "items=1-2", "bytes", "bytes=1-2;", "bytes=1–2",
+		// numerals are decimal in every position: leading zeros change nothing, other notations are not numbers
+		"bytes=-010", "bytes=-08", "bytes=-09", "bytes=-044", "bytes=-0x4", "bytes=-0X4", "bytes=-0b11", "bytes=-0o7", "bytes=-1_0", "bytes=-0_1",
+		"bytes=010-017", "bytes=0-010", "bytes=08-", "bytes=0x0-", "bytes=0b1-", "bytes=0o1-3", "bytes=1-0x3", "bytes=1-1_0", "bytes=-1e1", "bytes=1e0-"} {
 		add(s)
 	}
 	// seeded random from a small grammar
